@@ -16,6 +16,7 @@ type Config struct {
 	MaxSteps      int
 	MaxDepth      int
 	MaxAlloc      int
+	DetSched      bool
 	MaxConcretize int
 	MaxDecisions  int
 	Preempt       int
